@@ -88,6 +88,7 @@ pub fn generate(seed: u64, tier: &str, sink: &mut Sink) {
             body: BodyR::Multipart { texts: texts.clone(), files: files.clone() },
             post: vec![],
             hops: vec![(vec![Seg::Data(OK_RESPONSE.to_vec())], None)],
+            plain_tunnel: false,
         };
         let obs = run_send(&case);
         let mut boundary: Vec<u8> = vec![];
